@@ -18,11 +18,7 @@ RULE = ("case = (functional, method, backward-solve method, representation kind,
         "gradients (order>=1; order 2 takes them with create_graph) and second-order leaf gradients (order 2) to 1e-10 "
         "relative; distinct = distinct rounded (outputs, gradients) observations; a case is trivial when the "
         "reference itself raises or is non-finite (then nothing is judged)")
-RULE_ADDED = ('Added later: kinds with dependent / repeated / reversed-declaration parameters (pure_dep, em_dep, pu'
-              're_twice, em_twice, multi3, em_dict_rev), list-state solve_ivp. Round 4: kinds em_pexp (object tenso'
-              'r of f next to explicit parameters of log p) and em_cplx (object also holds complex / integer tensor'
-              's). Round 5: kinds both / both_rev (a class deriving from torch.nn.Module and EditableModule, in eit'
-              'her order, declaring a derived non-Parameter tensor next to a registered Parameter).')
+RULE_ADDED = 'Added later: kinds with dependent / repeated / reversed-declaration parameters (pure_dep, em_dep, pure_twice, em_twice, multi3, em_dict_rev), list-state solve_ivp. Round 4: kinds em_pexp (object tensor of f next to explicit parameters of log p) and em_cplx (object also holds complex / integer tensors). Round 5: kinds both / both_rev (a class deriving from torch.nn.Module and EditableModule, in either order, declaring a derived non-Parameter tensor next to a registered Parameter). Round 6: rebind kinds (object used once, its tensors re-bound by the owner, then the judged call).'
 ASSUMPTIONS = [
     "leaves a, b, p are float64 vectors of length 2 from a fixed alphabet (plane 0) or from boxes a in [0.6,1], "
     "b in [-0.4,0.4], p in [0.3,0.7] selected by VERIF_SEED (thorough planes 1..2); the functions are contractions / "
